@@ -15,7 +15,7 @@ def full_view(conn):
     v["etm_conn"] = bool(conn.encryptThenMAC)
     v["next_proto"] = bytes(conn.next_proto) if conn.next_proto else b""
     s = conn.session
-    v["serverName"] = s.serverName if s else None
+    v["serverName"] = (s.serverName or None) if s else None
     try:
         if conn.version >= (3, 1):
             v["exporter"] = bytes(conn.keyingMaterialExporter(
